@@ -110,6 +110,31 @@ static void conv_case(vh::Rng& g, int it)
     }
 }
 
+// square block grids whose columns are split differently from their rows (after the other cases: their numbers stay)
+static void indep_case(vh::Rng& g, int it)
+{
+    char buf[128];
+    int cap = 2 + std::min(14, it / 4);
+    int br = g.range(1, 3), bc = br;
+    int nb = g.range(1, 1 + cap / 2);
+    int style = g.coin() ? 1 : 2 + g.below(2);
+    vh::Layout LB; LB.kind = 1; LB.n_rows = nb * br; LB.n_cols = nb * bc;
+    LB.rows = vh::compose(g, nb, E.np, style); LB.cols = vh::compose(g, nb, E.np, 1 + g.below(3));
+    for (int r = 0; r < E.np; r++) if (LB.rows[r] == 0) { int give = LB.cols[r]; LB.cols[r] = 0; for (int q = 0; q < E.np; q++) if (LB.rows[q] > 0) { LB.cols[q] += give; break; } }   // a rank without rows owns no columns
+    for (int r = 0; r < E.np; r++) { LB.rows[r] *= br; LB.cols[r] *= bc; }
+    LB.first_row.assign(E.np, 0); LB.first_col.assign(E.np, 0);
+    for (int r = 1; r < E.np; r++) { LB.first_row[r] = LB.first_row[r - 1] + LB.rows[r - 1]; LB.first_col[r] = LB.first_col[r - 1] + LB.cols[r - 1]; }
+    vh::Trip tb = vh::gen_trip(g, nb * br, nb * bc, g.range(0, 3 * cap), false, false);
+    snprintf(buf, 128, "par/to_ParBSR/indep_cols/b%dx%d/%dx%d/style%d/it%d", br, bc, nb * br, nb * bc, style, it); E.about(buf);
+    ParCOOMatrix* Ac = vh::assemble_coo(tb, LB, E.rank); ParCSRMatrix* A = Ac->to_ParCSR();
+    ParBSRMatrix* Ab = A->to_ParBSR(br, bc);
+    emit(6, 1, 1, 0, tb, nullptr, br, bc, 10 + style, Ab);
+    snprintf(buf, 128, "par/ParBSR->ParCSR/indep_cols/b%dx%d/%dx%d/style%d/it%d", br, bc, nb * br, nb * bc, style, it); E.about(buf);
+    ParCSRMatrix* Back = Ab->to_ParCSR();
+    emit(7, 1, 1, 0, tb, nullptr, br, bc, 10 + style, Back);
+    delete Back; delete Ab; delete A; delete Ac;
+}
+
 // block assembly: ParBCOO filled block by block (duplicate block positions included), finalize() merges them
 static void bcoo_case(vh::Rng& g, int it)
 {
@@ -139,7 +164,7 @@ static void bcoo_case(vh::Rng& g, int it)
 }
 
 // block SpMV (C02): line format of h_c02's par_case with fmt = 4
-static void bspmv_case(vh::Rng& g, int it)
+static void bspmv_case(vh::Rng& g, int it, int tap = 0)
 {
     int cap = 2 + std::min(10, it / 4);
     int br = g.range(1, 3), bc = g.coin(2, 3) ? br : g.range(1, 3);
@@ -153,14 +178,13 @@ static void bspmv_case(vh::Rng& g, int it)
     ParBSRMatrix* A = As->to_ParBSR(br, bc);
     int fr = As->partition->first_local_row, fc = As->partition->first_local_col, lr = As->partition->local_num_rows, lc = As->partition->local_num_cols;
     const char* ops[] = { "mult", "mult_append", "mult_T", "residual" };
-    for (int tap = 0; tap <= 0; tap++)
     for (int k = 0; k < 4; k++) {
         bool T = (k == 2);
         std::vector<double> x = vh::rand_vec(g, T ? n_rows : n_cols), b = vh::rand_vec(g, T ? n_cols : n_rows);
         ParVector px(T ? n_rows : n_cols, T ? lr : lc), pb(T ? n_cols : n_rows, T ? lc : lr), pr(n_rows, lr);
         vh::fill_vec(px, x, T ? fr : fc); vh::fill_vec(pb, b, T ? fc : fr);
         for (int i = 0; i < pr.local_n; i++) pr.local.values[i] = 77;
-        snprintf(buf, 128, "par/bsr/%s/b%dx%d/%dx%d/style%d/it%d", ops[k], br, bc, n_rows, n_cols, style, it); E.about(buf);
+        snprintf(buf, 128, "par/bsr/%s%s/b%dx%d/%dx%d/style%d/it%d", ops[k], tap ? "/tap" : "", br, bc, n_rows, n_cols, style, it); E.about(buf);
         if (k == 0) A->mult(px, pb, tap); else if (k == 1) A->mult_append(px, pb, tap);
         else if (k == 2) A->mult_T(px, pb, tap); else A->residual(px, pb, pr, tap);
         bool want = E.want();
@@ -181,6 +205,8 @@ int main(int argc, char** argv)
     vh::Rng g(E.seed * 86028121 + (conv ? 7 : 2));
     int n = E.thorough ? 200 : 50;
     for (int it = 0; it < n; it++) { if (conv) { conv_case(g, it); bcoo_case(g, it); } else bspmv_case(g, it); }
+    if (conv) { vh::Rng gx(E.seed * 86028121 + 77); for (int it = 0; it < n; it++) indep_case(gx, it); }
+    else if (E.np > 1) { vh::Rng gt(E.seed * 86028121 + 91); for (int it = 0; it < n; it++) bspmv_case(gt, it, 1); }   // node-aware block products, after the regular cases
     E.finish();
     MPI_Finalize();
     return 0;
